@@ -1,12 +1,32 @@
 /-
-  Oracle commands for C10 (stub: owns no commands yet).
+  Oracle commands for C10 (decoder safety):
+    gguf-safe <maxArray> <budget> <hex>
+        -> the decoder model's outcome class with per-allocation budget B:
+           ok <summary> | err:eof | err:invalid | panic:<site> | alloc
+           or `gray` when the outcome under budget B and under 16·B differ (an allocation request
+           in the zone where the implementation's measured total may fall either side).
 -/
+import OllamaVerif.Model.Gguf
 import Oracle.Util
+import Oracle.Lib.GgufShow
 namespace Oracle.C10
-open Oracle
+open OllamaVerif OllamaVerif.Gguf Oracle Oracle.Lib.GgufShow
+
+def showSafe : Except Err Decoded → String
+  | .ok d => showDecoded d
+  | .error (.alloc _ _) => "alloc"
+  | .error e => showErr e
 
 def handle (toks : List String) : Option String :=
   match toks with
+  | "gguf-safe" :: rest =>
+    runTP (do
+      let maxA ← int
+      let budget ← nat
+      let bs ← hex
+      let a := showSafe (decode bs maxA (some budget))
+      let b := showSafe (decode bs maxA (some (16 * budget)))
+      pure (if a == b then a else "gray")) rest
   | _ => none
 
 end Oracle.C10
